@@ -306,6 +306,22 @@ pub fn run_c03(args: &Args) {
             run_pair(&mut out, 1, &b, &a);
         }
     }
+    // the strict-silencer guard couples Silencer with every sampling division: a multi-frame write with a transition
+    // to the other segment next to a strict Silencer whose steps lie between the old and the new division, both orders;
+    // the previous content of both segments has a small division
+    for (dv_new, steps) in [(20u16, 20u16), (20, 15), (50, 30), (20, 21)] {
+        let writes = [
+            Spec::Mod { seg: 1, tr: Some((0xFF, 0)), rep: 0xFFFF, div: dv_new, n: 600, seed: 90 },
+            Spec::Mod { seg: 1, tr: Some((0xFF, 0)), rep: 0xFFFF, div: dv_new, n: 2, seed: 91 },
+            Spec::Foci { n: 1, seg: 1, tr: Some((0xFF, 0)), rep: 0xFFFF, div: dv_new, ss: 21760, size: 100, seed: 92 },
+            Spec::GainStm { mode: 0, seg: 1, tr: Some((0xFF, 0)), rep: 0xFFFF, div: dv_new, size: 3, seed: 93 },
+        ];
+        for w in &writes {
+            let sil = Spec::SilSteps(steps, steps, true);
+            run_pair(&mut out, 1, w, &sil);
+            run_pair(&mut out, 1, &sil, w);
+        }
+    }
     // a chunk of the second member ends exactly on a write-page boundary: alone, a FociSTM/modulation is always cut
     // the same way; behind another operation its chunks are shorter, so which frame meets the 4096-foci /
     // 32768-sample boundary depends on the first member's size. Search first-member sizes with the real packer.
